@@ -159,3 +159,30 @@ Theorem C20_rewind_is_source : forall s pb prs sk,
   d_pb (snd (Demux.rewind s)) = None /\ d_opt_size (snd (Demux.rewind s)) = d_opt_size s.
 Proof. exact rewind_is_generated. Qed.
 Print Assumptions C20_rewind_is_source.
+
+(* The map Rewind keeps is the regenerated program_map.go (Gen/RestGen.v): Demuxer_Rewind above hands the SAME
+   dmx.programMap to the new packet pool and calls neither newProgramMap nor setUnlocked / unsetUnlocked, and for EVERY
+   implementation of map[uint32]uint16 that satisfies the three laws of a finite map the Go map and the model's d_pm answer
+   alike (pm_abs: existsUnlocked m pid = pm_mem pm pid) in a fresh Demuxer, after every setUnlocked and hence after every
+   history of registrations — the list Demux.rewind leaves in place.  The association list of Model/Muxer.v is such an
+   implementation (C02_program_map_is_source). *)
+Require Import Gen.RestGen Proofs.RestGenPm.
+Theorem C20_program_map_is_source :
+  forall (M : Type) (mk : M) (get : M -> Z -> option Z) (set : M -> Z -> Z -> M) (del : M -> Z -> M),
+  (forall k, get mk k = None) ->
+  (forall m k v k', get (set m k v) k' = if Z.eqb k' k then Some v else get m k') ->
+  (forall m k k', get (del m k) k' = if Z.eqb k' k then None else get m k') ->
+  pm_abs get (newProgramMap mk) [] /\
+  (forall m pm pid n, pm_abs get m pm -> pm_abs get (programMap_setUnlocked set m pid n) (pm_add pm pid)) /\
+  (forall m pm pid, pm_abs get m pm ->
+     pm_abs get (programMap_unsetUnlocked del m pid) (filter (fun q => negb (Z.eqb q pid)) pm)) /\
+  (forall regs, pm_abs get (fold_left (fun m e => programMap_setUnlocked set m (fst e) (snd e)) regs (newProgramMap mk))
+                       (fold_left pm_add (map fst regs) [])).
+Proof. exact program_map_demux_any_map. Qed.
+Print Assumptions C20_program_map_is_source.
+(* the hypotheses are satisfiable: the association list is a lawful map *)
+Example C20_program_map_is_source_inhabited :
+  (forall k, lm_get lm_make k = None) /\
+  (forall m k v k', lm_get (lm_set m k v) k' = if Z.eqb k' k then Some v else lm_get m k') /\
+  (forall m k k', lm_get (lm_del m k) k' = if Z.eqb k' k then None else lm_get m k').
+Proof. exact (conj lm_get_make (conj lm_get_set lm_get_del)). Qed.
